@@ -68,6 +68,19 @@ func main() {
 			}
 		}
 		return
+	case "routes":
+		p, err := Load(nil, nil)
+		if err != nil {
+			os.Exit(2)
+		}
+		rs, probs := p.extractRoutes()
+		for _, r := range rs {
+			fmt.Println(routeKey(r))
+		}
+		for _, x := range probs {
+			fmt.Println("PROBLEM", x)
+		}
+		return
 	case "callers":
 		p, err := Load(nil, nil)
 		if err != nil {
